@@ -130,6 +130,11 @@ def delayed_load(all_props, loader, element=True, isotope=False, ion=False):
         def setfn(el, value):
             #print "set", el, propname, value
             clearprops()
+            # If the value belongs to a private table, the public table has
+            # just lost its delayed loader; load it now so that it is not
+            # left without the property.
+            if el.table != PUBLIC_TABLE_NAME:
+                loader()
             setattr(el, propname, value)
         return setfn
 
